@@ -1103,19 +1103,21 @@ rc::Gen<mcase_t> gen_mcase()
         {
             const int kind = std::get<0>(kt);
             verif::ds::gen_options_t o;
-            o.min_samples   = 8;
-            o.max_samples   = 24;
-            o.min_inputs    = 1;
+            // decision trees and boosting need a few samples per node / fold to fit anything (the stream does not grow with them)
+            const bool many = kind == 7 || kind == 12;
+            o.min_samples   = many ? 24 : 8;
+            o.max_samples   = many ? 64 : 24;
+            o.min_inputs    = (kind >= 3 && kind <= 6) ? 2 : 1;
             o.max_inputs    = 4;
             o.max_classes   = 3;
-            o.target_kind   = std::get<1>(kt);
+            o.target_kind   = many ? (std::get<1>(kt) == 4 ? 1 : std::get<1>(kt)) : std::get<1>(kt);
             // complete data for the linear models; also for gboost: a categorical input without any value inside one of
             // the folds makes the table weak learners index an empty score table (crash inside fitting, C10's subject)
             o.allow_missing = kind < 8;
             // steer towards inputs the chosen weak learner can use (the others still occur)
             if (kind <= 2)
             {
-                o.allow_sclass = o.allow_mclass = false;
+                o.allow_sclass = o.allow_mclass = o.allow_struct = false;
             }
             else if (kind >= 3 && kind <= 6)
             {
@@ -1144,6 +1146,24 @@ rc::Gen<mcase_t> gen_mcase()
                                          if (std::fabs(v) > 1e6)
                                          {
                                              v = v > 0 ? 100.0 : -100.0;
+                                         }
+                                     }
+                                 }
+                                 // a learnable scalar regression target (first scalar input, affine) instead of noise: boosting
+                                 // and trees then keep some rounds / nodes
+                                 if (data.target >= 0 && data.spec(data.target).is_scalar())
+                                 {
+                                     for (const auto f : data.inputs())
+                                     {
+                                         if (data.spec(f).is_scalar())
+                                         {
+                                             auto& target = data.values[static_cast<size_t>(data.target)];
+                                             for (int i = 0; i < data.samples; ++i)
+                                             {
+                                                 const auto x = data.given(f, i) ? data.stored(f, i, 0) : 0.0;
+                                                 target[static_cast<size_t>(i)] = 0.75 * x - 0.5 + 0.01 * target[static_cast<size_t>(i)];
+                                             }
+                                             break;
                                          }
                                      }
                                  }
@@ -1240,6 +1260,12 @@ verdict_t check_mcase(const mcase_t& c, ctx_t& ctx)
         {
             auto w = nano::wlearner_t::all().get(pick_id<nano::wlearner_t>(c.kind));
             randomize(*w, c.u);
+            if (auto* depth = w->parameter_if("wlearner::dtree::max_depth"); depth != nullptr)
+            {
+                // deeper trees end in one-sample nodes on this little data and report "no fit"
+                *depth                                   = static_cast<int64_t>(1 + c.rng % 3);
+                w->parameter("wlearner::dtree::min_split") = 10;
+            }
             nano::tensor4d_t gradients(nano::cat_dims(dataset.samples(), dataset.target_dims()));
             for (nano::tensor_size_t i = 0; i < gradients.size(); ++i)
             {
